@@ -12,7 +12,7 @@ import (
 
 func init() {
 	register("C02", &propDef{run: runC02,
-		explain: "The forward-versus-local routing decision (it depends on per-message runtime state), placement arithmetic and the timing of the lazy partition-id refresh are NOT decided. Decided structural necessary conditions of 're-addressed and routed to the right downstream channel': (R1) on every path from a message-type arm to the append the message's collection id, shard name and partition id(s) were stored from the target info of the message's own collection / from getPartitionID(s); (R2) the position given to SetPosition names the target physical or virtual channel and keeps the source message id; the pack's start/end positions are clones (copyMsgPositions clones every element) renamed to the handler's target channel before the non-forward return; (R3) in the drop arms every field write is on the copy made by copyDropTypeMsg; (R4) ForeachChannel pairs the i-th of the sorted source list with the i-th of the sorted target list after a length check; (R5) every tsManager call of the channel handler uses the key built from its replicate id and its target channel; (R6) the per-shard TargetCollectionInfo is built from the paired target vchannel and the downstream collection info; (R7) id domains: the source-keyed sets and lookups (isDropped*, getCollectionTargetInfo, getPartitionID(s), Remove*) never receive a message id field that was already overwritten with the downstream id, synthetic drop messages carry source ids, and RemovePartitionInfo's comparison mixes no domains; (R8) channelHandlerMap is only looked up with mapping keys.",
+		explain: "The forward-versus-local routing decision (it depends on per-message runtime state), placement arithmetic and the timing of the lazy partition-id refresh are NOT decided. Decided structural necessary conditions of 're-addressed and routed to the right downstream channel': (R1) on every path from a message-type arm to the append the message's collection id, shard name and partition id(s) were stored from the target info of the message's own collection / from getPartitionID(s); (R2) the position given to SetPosition names the target physical or virtual channel and keeps the source message id; the pack's start/end positions are clones (copyMsgPositions clones every element) renamed to the handler's target channel before the non-forward return; (R3) in the drop arms every field write is on the copy made by copyDropTypeMsg, (R11) and that copy stores no pointer, slice or map of the input as it is; (R4) ForeachChannel pairs the i-th of the sorted source list with the i-th of the sorted target list after a length check; (R5) every tsManager call of the channel handler uses the key built from its replicate id and its target channel; (R6) the per-shard TargetCollectionInfo is built from the paired target vchannel and the downstream collection info; (R7) id domains: the source-keyed sets and lookups (isDropped*, getCollectionTargetInfo, getPartitionID(s), Remove*) never receive a message id field that was already overwritten with the downstream id, synthetic drop messages carry source ids, and RemovePartitionInfo's comparison mixes no domains; (R8) channelHandlerMap is only looked up with mapping keys.",
 		notDec:  []string{"forward-vs-local decision per message", "placement arithmetic (C16)", "when downstream partition ids become known"},
 	})
 }
